@@ -106,23 +106,29 @@ fn c08_txn(a: &Analysis, t: &Txn, d: usize, out: &mut Vec<Violation>) {
     let ser = sc.ser_us + sc.ser_ns_byte * (e.seg as u64 + 64) / 1000;
     let ser_eff = if ser == 0 { 0 } else { ser.div_ceil(1000) * 1000 };
     let naks: Vec<_> = t.at_dst.sent.iter().filter(|s| s.kind == Kind::Nak && s.seq < end).collect();
-    // A request list is computed when a round is triggered and then drained one PDU at a time at
-    // the pace of the link; the statement does not ask the receiver to re-validate what is already
-    // queued when a retransmission arrives meanwhile. "Only what is missing" is therefore judged
-    // against what the receiver held when the current burst of NAK PDUs began (PDUs at most one
-    // serialisation time + 1 ms apart form a burst).
-    let mut burst_start: Option<(u64, u64, u64)> = None; // (seq, vt, not_before) of the burst's first PDU
-    let mut prev_nak_vt: Option<u64> = None;
+    // A request list is computed when a round is triggered and then waits for the single outbound
+    // slot: behind ACKs (which go first) and behind the earlier NAK PDUs of the same list, one
+    // serialisation time each. The statement does not ask the receiver to re-validate what is
+    // already queued when a retransmission arrives meanwhile. A queued PDU only waits while the
+    // slot is busy, so the list of a NAK was computed no earlier than the start of the busy period
+    // that ends with it (PDUs of this entity at most one serialisation time + 1 ms apart).
+    // "Only what is missing" is judged against what the receiver held at that start.
+    let own: Vec<(u64, u64)> = a.sends.iter().filter(|x| x.src == d && !x.injected).map(|x| (x.seq, x.vt)).collect();
     for s in &naks {
         let Some(p) = &s.pdu else { continue };
         let Some(Operations::Nak(n)) = op_of(p) else { continue };
         let prev = a.sends.iter().filter(|x| x.src == d && !x.injected && x.seq < s.seq).last().map(|x| x.vt).unwrap_or(0);
-        let same_burst = prev_nak_vt.map(|pv| s.vt <= pv + ser_eff + 1000).unwrap_or(false);
-        if !same_burst || burst_start.is_none() {
-            burst_start = Some((s.seq, s.vt, prev));
+        let (mut bseq, mut bvt) = (s.seq, s.vt);
+        let mut bprev = 0u64;
+        for (q, qvt) in own.iter().rev().filter(|(q, _)| *q < s.seq) {
+            if *qvt + ser_eff + 1000 >= bvt {
+                bseq = *q;
+                bvt = *qvt;
+            } else {
+                bprev = *qvt;
+                break;
+            }
         }
-        prev_nak_vt = Some(s.vt);
-        let (bseq, bvt, bprev) = burst_start.unwrap();
         let cands_burst = candidates(&recvd, bseq, bvt, bprev);
         let cands = candidates(&recvd, s.seq, s.vt, prev);
         let first = &cands_burst[0];
@@ -396,7 +402,7 @@ fn orders(present: &[Item], rng: &mut Rng) -> Vec<Vec<Item>> {
 
 fn build(_ctx: &Ctx, tier: Tier, seed: u64) -> Vec<Job<'static>> {
     let (kmax, n_big, n_pair) = match tier {
-        Tier::Quick => (4usize, 1_500usize, 10_000usize),
+        Tier::Quick => (5usize, 6_000usize, 60_000usize),
         Tier::Thorough => (6, 60_000, 500_000),
     };
     let mut rng = Rng::new(seed ^ 0xC085);
